@@ -142,7 +142,7 @@ func substArr(d ArrData, m map[string]*Term) ArrData {
 	case *RefArr:
 		// memoised element reads are keyed by the index term: re-key under the substitution
 		changed := false
-		n := &RefArr{Elem: a.Elem, Base: a.Base, Dirty: a.Dirty, Ver: a.Ver, Known: map[string]Val{}, Idx: map[string]*Term{}}
+		n := &RefArr{Elem: a.Elem, Base: a.Base, Dirty: a.Dirty, Ver: a.Ver, Known: map[string]Val{}, Idx: map[string]*Term{}, ElemInv: a.ElemInv}
 		seen := map[interface{}]Val{}
 		for k, v := range a.Known {
 			nv := substVal(v, m, seen)
